@@ -750,15 +750,8 @@ class UnionUnmarshaller(AbstractUnmarshaller[UnionT], tp.Generic[UnionT]):
             ValueError: If `val` cannot be unmarshalled into any member type.
         """
         for routine in self.ordered_routines:
-            with contextlib.suppress(
-                ValueError,
-                TypeError,
-                SyntaxError,
-                AttributeError,
-                ArithmeticError,
-                OSError,
-                re.error,
-            ):
+            # Whichever error a member uses to reject the input, the next member gets its turn.
+            with contextlib.suppress(Exception):
                 unmarshalled = routine(val)
                 return unmarshalled
 
